@@ -1,5 +1,6 @@
 //! zv: bounded exhaustive exploration of the real zeep-lib (DESIGN.md §3).
 
+mod batch;
 mod corpus;
 mod extract;
 mod names;
@@ -48,6 +49,25 @@ fn main() {
             }
             runner::install_quiet_panic_hook();
             println!("===== OUTPUT\n{}", match runner::run_inproc(&set.to_case()) { runner::Outcome::Ok(s) => s, o => o.brief() });
+        }
+        Some("compile-seed") => {
+            runner::install_quiet_panic_hook();
+            let which = args.get(2).map(|s| s.as_str()).unwrap_or("w0");
+            let set = seeds::by_name(which);
+            let text = match runner::run_inproc(&set.to_case()) {
+                runner::Outcome::Ok(s) => s,
+                o => {
+                    eprintln!("{}", o.brief());
+                    std::process::exit(1);
+                }
+            };
+            let r = batch::run_batch("dbg", &[batch::BatchCase { id: which.into(), emitted: text, driver: None }], 20_000);
+            for (c, ds) in &r.compile_errors {
+                for d in ds {
+                    println!("{c}: [{}] line {} {} | {}", d.code, d.line, d.message, d.snippet);
+                }
+            }
+            println!("build {:.1}s, cache hits {}", r.build_secs, r.cache_hits);
         }
         Some("check") => {
             let id = args.get(2).unwrap_or_else(|| usage());
